@@ -1243,20 +1243,10 @@ fn ods_bytes(c: &OdsCase) -> Vec<u8> {
                 odsw::RowRun::new(vec![oc])
             })
             .collect();
-        let book = odsw::OdsBook::new(vec![odsw::OdsSheet::new("S", rows)]);
-        let content = book.content_xml();
-        assert!(latin_ok(&content));
-        use std::io::Write;
-        let mut z = zip::ZipWriter::new(Cursor::new(Vec::new()));
-        let stored = zip::write::SimpleFileOptions::default().compression_method(zip::CompressionMethod::Stored);
-        let defl = zip::write::SimpleFileOptions::default().compression_method(zip::CompressionMethod::Deflated);
-        z.start_file("mimetype", stored).unwrap();
-        z.write_all(odsw::MIMETYPE.as_bytes()).unwrap();
-        z.start_file("META-INF/manifest.xml", defl).unwrap();
-        z.write_all(book.manifest_xml().as_bytes()).unwrap();
-        z.start_file("content.xml", defl).unwrap();
-        z.write_all(&to_latin(&content, c.cells.len() as u64 + content.len() as u64)).unwrap();
-        return z.finish().unwrap().into_inner();
+        // the shared writer's declared-encoding knob (both labels mean windows-1252 to the decoder)
+        let mut book = odsw::OdsBook::new(vec![odsw::OdsSheet::new("S", rows)]);
+        book.encoding = Some(if c.cells.len() % 2 == 0 { "windows-1252" } else { "ISO-8859-1" });
+        return book.to_bytes();
     }
     let rows = c
         .cells
